@@ -298,6 +298,31 @@ def shared_state(ctx, kind, u1, u2, rng, case):
             ctx.violation('C05:copied-quantity-not-independent', {'kind': kind, 'value': x, 'unit': u1, 'original_converted_in_place_to': u3, 'copy': [cp.value, cp.unit],
                                                                   'copy_converted': [r3.value, r3.unit], 'reference': exp}, case)
             return
+        # (4) a conversion the library refuses (unknown symbol, a unit of another kind, a non-string) leaves the quantity as it was
+        bad_units = ['bar', 'N/mm^2', u1.upper() if u1.upper() != u1 else u1.lower(), u1 + ' ', '', 5, None]
+        other_kind = SI.KINDS[(SI.KINDS.index(kind) + 3) % len(SI.KINDS)]
+        bad_units.append([u_ for u_ in SI.units(other_kind) if u_ not in us][:1] or ['parsec'])
+        bad_units[-1] = bad_units[-1][0]
+        o2 = K(x, u1)
+        for bu in bad_units:
+            if bu in us:
+                continue
+            for inpl in (True, False):
+                try:
+                    o2.to(bu, inplace=inpl)
+                    ctx.violation('C05:unknown-unit-accepted', {'kind': kind, 'unit': repr(bu), 'inplace': inpl}, case)
+                    return
+                except (KeyError, TypeError, ValueError):
+                    pass
+                ctx.count('refused_conversions')
+                if o2.unit != u1 or o2.value != x:
+                    ctx.violation('C05:refused-conversion-modified-the-quantity', {'kind': kind, 'value': x, 'unit': u1, 'refused_target': repr(bu), 'inplace': inpl,
+                                                                                    'after': [o2.value, o2.unit]}, case)
+                    return
+        r4 = o2.to(u2)
+        if SI.ulps_apart(float(r4.value), exp) > 8:
+            ctx.violation('C05:refused-conversion-modified-the-quantity', {'kind': kind, 'value': x, 'unit': u1, 'converted_after_refusals': [r4.value, r4.unit], 'reference': exp}, case)
+            return
         # comparisons repeated on the same two objects
         b = K(SI.convert(kind, x * 1.5, u1, u2), u2)
         outs = [(a < b, b > a, a == b) for _ in range(3)]
